@@ -369,6 +369,42 @@ def run(ctx):
       ctx.fail_input('same_length', 'same_length does not give equally many sound pairs',
                      dict(labels=y.tolist(), n=n, seed=seed))
 
+  # the helper object carries no state between calls: every generator called again on the SAME Constraints object with the same
+  # integer seed (and after calls of the other generators) returns what a fresh object returns
+  for _ in range(40 if thorough else 12):
+    y = gen_labels(rng)
+    known = y[y >= 0]
+    if len(known) < 4 or len(np.unique(known)) < 2:
+      continue
+    seed = int(rng.integers(0, 2 ** 31 - 1))
+    n = int(rng.integers(1, 15))
+    cs = 2
+    counts = np.bincount(known)
+    nch = int(max(1, min(3, np.sum(counts // cs))))
+    X = np.asarray(rng.standard_normal((len(y), 2)))
+
+    def calls(c):
+      out = []
+      with warnings.catch_warnings():
+        warnings.simplefilter('ignore')
+        for f in (lambda: c.chunks(n_chunks=nch, chunk_size=cs, random_state=seed),
+                  lambda: c.positive_negative_pairs(n, random_state=seed),
+                  lambda: c.generate_knntriplets(X, 1, 1)):
+          try:
+            r = f()
+            out.append([np.asarray(v).tolist() for v in r] if isinstance(r, tuple) else np.asarray(r).tolist())
+          except Exception as ex:
+            out.append('raises ' + type(ex).__name__)
+      return out
+    shared = Constraints(y)
+    first, second, third = calls(shared), calls(shared), calls(shared)
+    fresh = calls(Constraints(y))
+    ctx.count('stateless_helper', 1)
+    if not (first == fresh and second == fresh and third == fresh):
+      which = [nm for nm, a, b, c2 in zip(('chunks', 'positive_negative_pairs', 'generate_knntriplets'), second, third, fresh) if a != c2 or b != c2]
+      ctx.fail_input('stateless_helper', 'calling %s again on the same Constraints object (same seed) gives another result than a fresh object' % ', '.join(which or ['a generator']),
+                     dict(labels=y.tolist(), seed=seed, n_chunks=nch, chunk_size=cs, n_constraints=n), observed=second, expected=fresh)
+
 
 def replay(payload):
   from metric_learn.constraints import Constraints
